@@ -459,7 +459,11 @@ PROPS = {
     "C07": {
         "parts": [
             {"engine": "clonersim", "cfgs": ["", "nowire"], "share": 1, "chunk": 3000},
-            {"engine": "sysim", "cfgs": ["", "servers", "sequential", "servers"], "share": 2, "chunk": 300},
+            {"engine": "sysim", "cfgs": ["", "servers", "sequential", "servers"], "share": 2, "chunk": 300,
+             # Yields inside the ECS cache: after an item was taken from the cache, before it is cloned, before an
+             # item is stored or a message released.  At a yield a stream sleeps one simulated nanosecond, so every
+             # other stream that can run does so first.
+             "instrument": "internal/ecscache=callsafter:cache\\.Get,calls:cloner\\.Clone|SetWithExpire|Dispose"},
             {"engine": "wire", "instrument": WIRE_INSTRUMENT, "cfgs": [""], "modreplace": WIRE_MODREPLACE, "share": 1, "chunk": 100},
         ],
         "det_trace": False,
